@@ -249,6 +249,14 @@ def resolveOpen (m : Msg) : Option (List (Str × Option Str) × List (Nat × Str
   (splitOpen (msgIdent m) (nestedIdents m) rs).bind fun (fs, os) =>
   some (fs, (oneofOrder [] m.fields).zip os)
 
+/-- the member names (struct fields and `Get` methods) of the open-API message type -/
+def openMembersOf (m : Msg) : Option (List Str) :=
+  (resolveOps reserved (opsOf m.oneofs [] m.fields)).map openMembers
+
+/-- the wrapper types of the oneof members -/
+def wrappersOf (m : Msg) : Option (List Str) :=
+  (resolveOpen m).map fun r => r.1.filterMap (·.2)
+
 /-! ### opaque API (protogen_opaque.go) -/
 
 /-- `strconv.Itoa` of a positive field number -/
